@@ -12,12 +12,11 @@
         without error and passes the checker's literal validation.
     Not proved (listed, not claimed): soundness (accepted => derivable; the implementation is
     deliberately more lenient, e.g. labels at 5.1, `;;` at 5.1), the name-level conditions of the
-    reference compiler (break/goto/attribs/vararg placement), long strings and comments (the long
-    bracket lexer is exercised by the correspondence and the search only), an explicit fuel bound. *)
+    reference compiler (break/goto/attribs/vararg placement), an explicit fuel bound. *)
 From Coq Require Import List Bool Arith NArith.
 Import ListNotations.
 From EV Require Import C03.Syntax C03.Spec C03.Model C03.Proofs C03.Corr Gen.C03_Ops Gen.C02_Graph.
-From EV Require C03.LexModel C03.LexSpec C03.LexProofs C03.GenProofs C03.Facts.
+From EV Require C03.LexModel C03.LexSpec C03.LexProofs C03.GenProofs C03.Facts C03.LongModel C03.LongSpec C03.LongProofs.
 
 (** table obligation: left/right priorities, the unary priority and the token -> operator maps of
     kind/lua_operator_kind.rs and kind/mod.rs against the manual's table (Spec.v, §3.4.8) *)
@@ -71,6 +70,28 @@ Theorem string_escape_complete : forall (v : LexSpec.lua_version) (s rest : list
     Some {| LexModel.tk_kind := LexModel.TkString; LexModel.tk_text := s; LexModel.tk_rest := rest; LexModel.tk_err := false |} /\
   LexModel.check_string_umax LexModel.lua54_umax s = true.
 Proof. exact LexProofs.string_escape_complete. Qed.
+
+(** every long bracket of any level — it ends at the FIRST closing bracket of its level; closing brackets
+    of other levels, single ']' and newlines are content — is one TkLongString token with no error ... *)
+Theorem long_string_complete : forall (n : nat) (body rest : list BinNums.N), LongSpec.long_body n body ->
+  LongModel.lex_long false (LongSpec.opener n ++ body ++ LongSpec.closer n ++ rest) =
+    Some {| LongModel.lt_kind := LongModel.TkLongString; LongModel.lt_text := LongSpec.opener n ++ body ++ LongSpec.closer n;
+            LongModel.lt_rest := rest; LongModel.lt_err := false |}.
+Proof. exact LongProofs.long_string_complete. Qed.
+
+(** ... and with "--" in front one TkLongComment token with no error *)
+Theorem long_comment_complete : forall (n : nat) (body rest : list BinNums.N), LongSpec.long_body n body ->
+  LongModel.lex_long false (45%N :: 45%N :: LongSpec.opener n ++ body ++ LongSpec.closer n ++ rest) =
+    Some {| LongModel.lt_kind := LongModel.TkLongComment;
+            LongModel.lt_text := 45%N :: 45%N :: LongSpec.opener n ++ body ++ LongSpec.closer n;
+            LongModel.lt_rest := rest; LongModel.lt_err := false |}.
+Proof. exact LongProofs.long_comment_complete. Qed.
+
+(** a lexer that also swallows the ']' following a closing bracket of the WRONG level reports
+    "unfinished long string" on the valid string [=[a]]=] *)
+Theorem long_greedy_refuted : exists n body, LongSpec.long_body n body /\
+    exists t, LongModel.lex_long true (LongSpec.opener n ++ body ++ LongSpec.closer n) = Some t /\ LongModel.lt_err t = true.
+Proof. exact LongProofs.long_greedy_refuted. Qed.
 
 (** the two defects this property had before the repairs (kept as theorems about the old predicates):
     "\u{D800}" was reported by the checker, and "\z<VT><LF>" was an "unfinished string" *)
